@@ -19,10 +19,11 @@ const (
 	nFuzzy
 	nMustNot
 	nMust
+	nGroup // field:(E) with E an AND of bare terms (field grouping)
 )
 
 // precedence levels, loosest first: OR 1, AND 2, NOT 3, ^ 4, ~ 5, - 6, + 7, atoms 8
-var level = map[int]int{nOr: 1, nAnd: 2, nNot: 3, nBoost: 4, nFuzzy: 5, nMustNot: 6, nMust: 7, nLeaf: 8}
+var level = map[int]int{nOr: 1, nAnd: 2, nNot: 3, nBoost: 4, nFuzzy: 5, nMustNot: 6, nMust: 7, nLeaf: 8, nGroup: 8}
 
 const (
 	lfBare = iota // a bare string term
@@ -61,6 +62,12 @@ const (
 	lfRangeComma    // f:["a,b" TO "c"]  (a string bound containing a comma)
 	lfEqSpecial     // f:"it's, x"  (quote, comma, space in an equality value)
 	lfEmptyQuoted   // f:""
+	lfBareQuotedWild // "b*" as a bare term: quoted, so a string
+	lfWildField     // b*:v  (a field name containing a wildcard character)
+	lfQuotedDigits  // f:"5"  (a quoted number is a string)
+	lfRangeMixed    // f:[1 TO 2.5]
+	lfQuotedNasty   // f:"x%y" with bytes that matter to formatting and quoting
+	lfRegexpNasty   // f:/x%y/
 	lfRangeBig      // f:[9007199254740993 TO *]  (an integer that float64 cannot hold)
 	lfEqBig         // f:9007199254740993
 	lfNonASCII      // f:"é" style two-byte UTF-8 text
@@ -69,7 +76,7 @@ const (
 
 var leafNames = []string{"bare", "eq-str", "eq-int", "bare-int", "gt", "ge", "lt", "le", "range-incl", "range-excl", "range-lo", "range-hi",
 	"range-str", "list", "wild", "regexp", "quoted", "float", "bare-wild", "", "range-excl-str", "range-str-lo", "range-str-hi", "range-all",
-	"range-excl-lo", "range-excl-hi", "range-float", "range-float-excl", "list-int", "wild-mid", "regexp-short", "special-float", "range-str-comma", "eq-special", "empty-quoted", "range-big", "eq-big", "non-ascii"}
+	"range-excl-lo", "range-excl-hi", "range-float", "range-float-excl", "list-int", "wild-mid", "regexp-short", "special-float", "range-str-comma", "eq-special", "empty-quoted", "bare-quoted-wild", "wild-field", "quoted-digits", "range-mixed", "quoted-nasty", "regexp-nasty", "range-big", "eq-big", "non-ascii"}
 
 // concreteFields makes field names the fixed sequence p, q, r, ... (one per leaf) instead of
 // symbolic bytes; used where rows have to be looked up by name.
@@ -87,6 +94,7 @@ type leaf struct {
 }
 
 type node struct {
+	field string // for nGroup
 	kind int
 	l, r *node
 	num  int // explicit power / distance (only meaningful when hasNum)
@@ -191,9 +199,26 @@ func genLeaf(forms []int) *node {
 		lf.s2 = string([]byte{'x', holeByte("str", strRest)})
 	case lfEqSpecial:
 		lf.field = holeField()
-		lf.s1 = string([]byte{holeByte("str", strRest), '\'', ',', ' ', holeByte("str", strRest+"';-/")})
+		lf.s1 = string([]byte{holeByte("str", strRest), '\'', ',', ' ', holeByte("str", strRest+"';-/\\")})
 	case lfEmptyQuoted:
 		lf.field = holeField()
+	case lfBareQuotedWild:
+		lf.s1 = string([]byte{holeByte("str", strFirst), holeByte("wc", "*?")})
+	case lfWildField:
+		lf.field = string([]byte{holeByte("field", fieldCls), holeByte("wc", "*?")})
+		lf.s1 = holeStr()
+	case lfQuotedDigits:
+		lf.field = holeField()
+		lf.s1 = string([]byte{holeByte("digit", "0123456789"), holeByte("digit", "0123456789")})
+	case lfRangeMixed:
+		lf.field = holeField()
+		lf.d1, lf.i1 = holeInt()
+	case lfQuotedNasty:
+		lf.field = holeField()
+		lf.s1 = string([]byte{holeByte("str", strRest), holeByte("nasty", "%'\\ ;-d"), holeByte("nasty", "%'\\ ;-dsv")})
+	case lfRegexpNasty:
+		lf.field = holeField()
+		lf.s1 = string([]byte{'/', holeByte("str", strRest), holeByte("nasty", "%'; -"), holeByte("nasty", "%';dsv"), '/'})
 	case lfRangeBig, lfEqBig:
 		lf.field = holeField()
 		lf.d1, lf.i1 = "9007199254740993", 9007199254740993
@@ -223,6 +248,10 @@ func genTree(depth int, ops []int, forms []int) *node {
 	switch k {
 	case nAnd, nOr:
 		return &node{kind: k, l: genTree(depth-1, ops, forms), r: genTree(depth-1, ops, forms)}
+	case nGroup:
+		// the group holds an AND chain of two bare strings (an OR chain would be a value list)
+		g := &node{kind: nAnd, l: &node{kind: nLeaf, lf: &leaf{form: lfBare, s1: holeStr()}}, r: &node{kind: nLeaf, lf: &leaf{form: lfBare, s1: holeStr()}}}
+		return &node{kind: nGroup, field: holeField(), l: g}
 	case nBoost, nFuzzy:
 		n := &node{kind: k, l: genTree(depth-1, ops, forms)}
 		if rtChoose("num", 2) == 1 {
@@ -249,6 +278,7 @@ type printOpts struct {
 	wideSpace bool           // two spaces / tabs instead of one space
 	lowerKw   bool           // and/or/not/to in lower case
 	valuePar  bool           // field:(value) instead of field:value
+	prefixSp  bool           // white space between a prefix operator and its operand (- a, + a)
 }
 
 func kw(s string, o *printOpts) string {
@@ -348,6 +378,16 @@ func printLeaf(lf *leaf, o *printOpts) string {
 		return lf.field + ":\"" + lf.s1 + "\""
 	case lfEmptyQuoted:
 		return lf.field + ":\"\""
+	case lfBareQuotedWild:
+		return "\"" + lf.s1 + "\""
+	case lfWildField, lfRegexpNasty:
+		return lf.field + ":" + lf.s1
+	case lfQuotedNasty:
+		return lf.field + ":\"" + lf.s1 + "\""
+	case lfQuotedDigits:
+		return lf.field + ":\"" + lf.s1 + "\""
+	case lfRangeMixed:
+		return lf.field + ":[" + lf.d1 + sp(o) + kw("TO", o) + sp(o) + "2.5]"
 	case lfRangeBig:
 		return lf.field + ":[" + lf.d1 + sp(o) + kw("TO", o) + sp(o) + "*]"
 	case lfEqBig:
@@ -396,11 +436,19 @@ func printNode(n *node, min int, o *printOpts) string {
 		// -5 would be one literal token: a number under MUSTNOT is parenthesised
 		if n.l.kind == nLeaf && n.l.lf.form == lfBareInt {
 			s = "-(" + printNode(n.l, 0, o) + ")"
+		} else if o != nil && o.prefixSp {
+			s = "- " + printNode(n.l, lv, o)
 		} else {
 			s = "-" + printNode(n.l, lv, o)
 		}
+	case nGroup:
+		s = n.field + ":(" + printNode(n.l, 0, o) + ")"
 	case nMust:
-		s = "+" + printNode(n.l, lv, o)
+		if o != nil && o.prefixSp {
+			s = "+\t" + printNode(n.l, lv, o)
+		} else {
+			s = "+" + printNode(n.l, lv, o)
+		}
 	case nBoost:
 		s = printNode(n.l, lv, o) + "^"
 		if n.hasNum {
@@ -481,8 +529,13 @@ func matchLeaf(e *expr.Expression, lf *leaf, df string) bool {
 		return litKind(e, expr.Wild, lf.s1)
 	case lfEqStr:
 		return e.Op == expr.Equals && rtAnd(litColumn(e.Left, lf.field), litString(e.Right, lf.s1))
-	case lfQuoted, lfEqSpecial, lfNonASCII, lfEmptyQuoted:
+	case lfQuoted, lfEqSpecial, lfNonASCII, lfEmptyQuoted, lfWildField, lfQuotedDigits:
 		return e.Op == expr.Equals && rtAnd(litColumn(e.Left, lf.field), litString(e.Right, lf.s1))
+	case lfBareQuotedWild:
+		if df != "" {
+			return e.Op == expr.Equals && rtAnd(litColumn(e.Left, df), litString(e.Right, lf.s1))
+		}
+		return litString(e, lf.s1)
 	case lfEqInt, lfEqBig:
 		return e.Op == expr.Equals && rtAnd(litColumn(e.Left, lf.field), litInt(e.Right, lf.i1))
 	case lfFloat:
@@ -503,6 +556,20 @@ func matchLeaf(e *expr.Expression, lf *leaf, df string) bool {
 		return e.Op == expr.Less && rtAnd(litColumn(e.Left, lf.field), litInt(e.Right, lf.i1))
 	case lfLe:
 		return e.Op == expr.LessEq && rtAnd(litColumn(e.Left, lf.field), litInt(e.Right, lf.i1))
+	case lfRangeMixed:
+		if e.Op != expr.Range {
+			return false
+		}
+		bm, okm := e.Right.(*expr.RangeBoundary)
+		if !okm || bm == nil || !bm.Inclusive {
+			return false
+		}
+		mx := asExpr(bm.Max)
+		if mx == nil || mx.Op != expr.Literal {
+			return false
+		}
+		f, isF := mx.Left.(float64)
+		return isF && f == 2.5 && rtAnd(litColumn(e.Left, lf.field), litInt(bm.Min, lf.i1))
 	case lfRangeIncl, lfRangeExcl, lfRangeLo, lfRangeHi, lfRangeStr, lfRangeBig:
 		if e.Op != expr.Range {
 			return false
@@ -574,6 +641,9 @@ func matchTree(v any, n *node, df string) bool {
 		return e.Op == expr.Or && rtAnd(matchTree(e.Left, n.l, df), matchTree(e.Right, n.r, df))
 	case nNot:
 		return e.Op == expr.Not && e.Right == nil && matchTree(e.Left, n.l, df)
+	case nGroup:
+		// terms inside a field group belong to that field: never to the default field
+		return e.Op == expr.Equals && rtAnd(litColumn(e.Left, n.field), matchTree(e.Right, n.l, ""))
 	case nMust:
 		return e.Op == expr.Must && e.Right == nil && matchTree(e.Left, n.l, df)
 	case nMustNot:
